@@ -8,14 +8,18 @@
 // Stubs: SHA-256 engine -> support/c16_hash_models.rs (digests arbitrary: nothing here depends on digest values);
 //        TaprootSpendInfo::from_node_info (libsecp key tweak, reached only when finalize succeeds) -> a model that
 //        records the root; the `Secp256k1` context handed to finalize is never dereferenced.
-// Oracle: (1) semantic - with at most 3 nodes the only depth sequences that describe a complete binary tree in
-// depth-first order are [0], [1,1], [1,2,2], [2,2,1]: finalize succeeds exactly for those; (2) DFS discipline as a
-// binary counter on the Kraft sum (level j "open" <=> bit 2^-j set): a node at depth d is out of order iff a deeper
-// level is open, over-complete iff the carry leaves level 0, too deep iff d > 128.
+// Measured: symbolic depths make `branch.extend(..)` / realloc sizes symbolic and the SAT encoding explodes (34 GB at
+// ONE node with a symbolic depth 0..=2); the harnesses therefore enumerate CONCRETE depth sequences, one instance each
+// (class B, the bound is the listed sequence set); node hashes / leaf script bytes / leaf versions stay symbolic.
+// Oracle, written by hand per sequence from the DFS discipline (Kraft sum as a binary counter: level j is open iff
+// bit 2^-j is set; a node at depth d is out of order iff a deeper level is open, over-complete iff the carry leaves
+// level 0, too deep iff d > 128; complete iff the sum is exactly 1): with at most 3 nodes the only complete trees
+// are [0], [1,1], [1,2,2], [2,2,1].
 use super::*;
 use crate::hashes::sha256::Hash as ShaHash;
 use crate::hashes::sha256::HashEngine as ShaEngine;
 use crate::hashes::HashEngine as HashEngineTrait;
+use crate::hashes::sha256::Midstate as ShaMidstate;
 use core::mem::ManuallyDrop;
 
 #[path = "support/c16_ffi_models.rs"]
@@ -47,46 +51,19 @@ fn fake_secp() -> ManuallyDrop<Secp256k1<secp256k1_zkp::VerifyOnly>> {
 }
 
 #[derive(Clone, Copy, PartialEq, Eq)]
-enum Step { Ok, NotDfs, Over, TooDeep }
-
-/// binary-counter model of the DFS discipline on levels 0..=LV-1 (LV > every depth used)
-struct Model<const LV: usize> { open: [bool; LV], any: bool }
-impl<const LV: usize> Model<LV> {
-    fn new() -> Self { Model { open: [false; LV], any: false } }
-    fn deeper_open(&self, d: usize) -> bool {
-        let mut i = 0;
-        let mut r = false;
-        while i < LV { if i > d && self.open[i] { r = true; } i += 1; }
-        r
-    }
-    fn add(&mut self, d: usize) -> Step {
-        if d > 128 { return Step::TooDeep; }
-        if self.deeper_open(d) { return Step::NotDfs; }
-        // ripple carry upwards
-        let mut l = d;
-        let mut i = 0;
-        while i < LV {
-            if self.open[l] {
-                if l == 0 { return Step::Over; }
-                self.open[l] = false;
-                l -= 1;
-            }
-            i += 1;
-        }
-        self.open[l] = true;
-        self.any = true;
-        Step::Ok
-    }
-    fn complete(&self) -> bool {
-        let mut i = 1;
-        let mut r = self.open[0];
-        while i < LV { if self.open[i] { r = false; } i += 1; }
-        r
-    }
+enum Want {
+    /// every insertion accepted, finalize succeeds
+    Complete,
+    /// every insertion accepted, finalize says IncompleteTree
+    Incomplete,
+    /// the LAST insertion of the sequence is refused this way (all earlier ones accepted)
+    NotDfs,
+    Over,
+    TooDeep,
 }
 
-fn any_node(b: TaprootBuilder, depth: usize) -> Result<TaprootBuilder, TaprootBuilderError> {
-    if kani::any() {
+fn add_node(b: TaprootBuilder, depth: usize, leaf: bool) -> Result<TaprootBuilder, TaprootBuilderError> {
+    if !leaf {
         b.add_hidden(depth, TapNodeHash::from_byte_array(kani::any()))
     } else {
         // a leaf with a one-byte script and an arbitrary valid leaf version
@@ -97,153 +74,130 @@ fn any_node(b: TaprootBuilder, depth: usize) -> Result<TaprootBuilder, TaprootBu
     }
 }
 
-fn check_finalize<const LV: usize>(b: TaprootBuilder, m: &Model<LV>, semantic_complete: bool) {
+fn run_sequence(ds: &[usize], leaf: bool, want: Want) {
+    let mut b = TaprootBuilder::new();
+    let n = ds.len();
+    let mut i = 0;
+    while i < n {
+        let last = i + 1 == n;
+        match add_node(b, ds[i], leaf) {
+            Ok(nb) => {
+                assert!(!(last && matches!(want, Want::NotDfs | Want::Over | Want::TooDeep)), "insertion accepted against the DFS discipline");
+                b = nb;
+            }
+            Err(e) => {
+                assert!(last, "a prefix of the sequence was refused");
+                match e {
+                    TaprootBuilderError::InvalidMerkleTreeDepth(x) => assert!(want == Want::TooDeep && x == ds[i]),
+                    TaprootBuilderError::NodeNotInDfsOrder => assert!(want == Want::NotDfs),
+                    TaprootBuilderError::OverCompleteTree => assert!(want == Want::Over),
+                    _ => assert!(false, "unexpected builder error"),
+                }
+                kani::cover!(true);
+                return; // a failed insertion consumes the builder
+            }
+        }
+        i += 1;
+    }
+    assert!(b.is_complete() == (want == Want::Complete));
     let secp = fake_secp();
-    let key = fm::xonly_from(kani::any());
-    assert!(b.is_complete() == m.complete());
-    assert!(m.complete() == semantic_complete);
-    match b.finalize(&secp, key) {
+    match b.finalize(&secp, fm::xonly_from(kani::any())) {
         Ok(info) => {
-            assert!(semantic_complete, "finalize accepted a depth sequence that is not a complete DFS tree");
+            assert!(want == Want::Complete, "finalize accepted a depth sequence that is not a complete DFS tree");
             assert!(info.merkle_root.is_some());
             core::mem::forget(info);
-            kani::cover!(true);
         }
         Err(e) => {
-            assert!(!semantic_complete, "finalize refused a complete tree");
-            if m.any {
-                assert!(matches!(e, TaprootBuilderError::IncompleteTree));
-            } else {
-                assert!(matches!(e, TaprootBuilderError::EmptyTree));
-            }
-            kani::cover!(true);
+            assert!(want == Want::Incomplete, "finalize refused a complete tree");
+            assert!(matches!(e, TaprootBuilderError::IncompleteTree));
         }
     }
+    kani::cover!(true);
 }
 
-macro_rules! builder_small {
-    ($name:ident, $k:expr, $unw:literal) => {
+macro_rules! seq {
+    ($name:ident, [$($d:expr),+], $leaf:expr, $want:expr, $unw:literal) => {
         #[kani::proof]
         #[kani::unwind($unw)]
         #[kani::stub(<ShaEngine as HashEngineTrait>::input, hm::input_noop)]
         #[kani::stub(ShaHash::from_engine, hm::from_engine_any)]
+        #[kani::stub(ShaMidstate::to_engine, hm::to_engine_fresh)]
         #[kani::stub(TaprootSpendInfo::from_node_info, from_node_info_model)]
         fn $name() {
-            const K: usize = $k;
-            let mut d = [0usize; 3];
-            let mut m = Model::<5>::new();
-            let mut b = TaprootBuilder::new();
-            let mut i = 0;
-            while i < K {
-                d[i] = kani::any();
-                kani::assume(d[i] <= 3);
-                let want = m.add(d[i]);
-                match any_node(b, d[i]) {
-                    Ok(nb) => {
-                        assert!(want == Step::Ok);
-                        b = nb;
-                    }
-                    Err(e) => {
-                        match e {
-                            TaprootBuilderError::NodeNotInDfsOrder => assert!(want == Step::NotDfs),
-                            TaprootBuilderError::OverCompleteTree => assert!(want == Step::Over),
-                            _ => assert!(false, "unexpected builder error"),
-                        }
-                        kani::cover!(want == Step::NotDfs);
-                        kani::cover!(want == Step::Over);
-                        return; // the builder is consumed by a failed insertion
-                    }
-                }
-                i += 1;
-            }
-            let semantic_complete = match K {
-                0 => false,
-                1 => d[0] == 0,
-                2 => d[0] == 1 && d[1] == 1,
-                _ => (d[0] == 1 && d[1] == 2 && d[2] == 2) || (d[0] == 2 && d[1] == 2 && d[2] == 1),
-            };
-            check_finalize(b, &m, semantic_complete);
+            run_sequence(&[$($d),+], $leaf, $want);
         }
     };
 }
+
 //@ harness: taproot_builder_k0 class=F tier=quick
-//@ clause: finalize on a builder that never received a node is refused with EmptyTree; never panics
-builder_small!(taproot_builder_k0, 0, 8);
-//@ harness: taproot_builder_k1 class=B tier=quick bound="1 node (leaf or hidden), depth 0..=3"
-//@ clause: one node: accepted at every depth; finalize succeeds iff depth == 0, otherwise IncompleteTree; never panics
-builder_small!(taproot_builder_k1, 1, 8);
-//@ harness: taproot_builder_k2 class=B tier=quick bound="2 nodes (each leaf or hidden), depths 0..=3" timeout=900
-//@ clause: two nodes: the second is refused with NodeNotInDfsOrder iff a deeper level is open, with OverCompleteTree iff the root would get a sibling; finalize succeeds exactly for depths [1,1]; never panics
-builder_small!(taproot_builder_k2, 2, 8);
-//@ harness: taproot_builder_k3 class=B tier=thorough bound="3 nodes (each leaf or hidden), depths 0..=3" timeout=1800
-//@ clause: three nodes: same discipline; finalize succeeds exactly for depths [1,2,2] and [2,2,1]; never panics
-builder_small!(taproot_builder_k3, 3, 8);
-
-// ---- depths around the 128-level limit: concrete depth sequences (one instance each), hidden nodes ------------
-macro_rules! builder_deep {
-    ($name:ident, [$($d:expr),+], $last:expr, $unw:literal) => {
-        #[kani::proof]
-        #[kani::unwind($unw)]
-        #[kani::stub(<ShaEngine as HashEngineTrait>::input, hm::input_noop)]
-        #[kani::stub(ShaHash::from_engine, hm::from_engine_any)]
-        #[kani::stub(TaprootSpendInfo::from_node_info, from_node_info_model)]
-        fn $name() {
-            let ds = [$($d),+];
-            let mut b = TaprootBuilder::new();
-            let mut i = 0;
-            let n = ds.len();
-            while i < n {
-                let r = b.add_hidden(ds[i], TapNodeHash::from_byte_array(kani::any()));
-                if i + 1 == n {
-                    // the last insertion of the sequence has the stated outcome
-                    let want: Step = $last;
-                    match r {
-                        Ok(nb) => {
-                            assert!(want == Step::Ok);
-                            assert!(!nb.is_complete() || (n == 1 && ds[0] == 0));
-                            let secp = fake_secp();
-                            match nb.finalize(&secp, fm::xonly_from(kani::any())) {
-                                Ok(x) => { core::mem::forget(x); assert!(false); }
-                                Err(e) => assert!(matches!(e, TaprootBuilderError::IncompleteTree)),
-                            }
-                        }
-                        Err(e) => match e {
-                            TaprootBuilderError::InvalidMerkleTreeDepth(x) => assert!(want == Step::TooDeep && x == ds[i]),
-                            TaprootBuilderError::NodeNotInDfsOrder => assert!(want == Step::NotDfs),
-                            TaprootBuilderError::OverCompleteTree => assert!(want == Step::Over),
-                            _ => assert!(false),
-                        },
-                    }
-                    kani::cover!(true);
-                    return;
-                }
-                match r {
-                    Ok(nb) => b = nb,
-                    Err(_) => { assert!(false, "prefix of the sequence refused"); return; }
-                }
-                i += 1;
-            }
-        }
-    };
+//@ clause: finalize on a builder that never received a node is refused with EmptyTree; is_complete() is false; never panics
+#[kani::proof]
+#[kani::unwind(3)]
+#[kani::stub(TaprootSpendInfo::from_node_info, from_node_info_model)]
+fn taproot_builder_k0() {
+    let b = TaprootBuilder::new();
+    assert!(!b.is_complete());
+    let secp = fake_secp();
+    match b.finalize(&secp, fm::xonly_from(kani::any())) {
+        Ok(x) => { core::mem::forget(x); assert!(false); }
+        Err(e) => assert!(matches!(e, TaprootBuilderError::EmptyTree)),
+    }
+    kani::cover!(true);
 }
+
+//@ harness: taproot_builder_seq_0 class=B tier=quick bound="depth sequence [0], hidden node"
+//@ clause: a single node at depth 0 is a complete tree: accepted, finalize succeeds
+seq!(taproot_builder_seq_0, [0usize], false, Want::Complete, 4);
+//@ harness: taproot_builder_seq_0_0 class=B tier=quick bound="depth sequence [0,0], hidden nodes"
+//@ clause: a second node at depth 0 is refused with OverCompleteTree
+seq!(taproot_builder_seq_0_0, [0usize, 0], false, Want::Over, 4);
+//@ harness: taproot_builder_seq_1 class=B tier=quick bound="depth sequence [1], hidden node"
+//@ clause: one node at depth 1: accepted, finalize says IncompleteTree
+seq!(taproot_builder_seq_1, [1usize], false, Want::Incomplete, 4);
+//@ harness: taproot_builder_seq_1_1 class=B tier=quick bound="depth sequence [1,1], hidden nodes"
+//@ clause: two nodes at depth 1 combine into the root: complete, finalize succeeds
+seq!(taproot_builder_seq_1_1, [1usize, 1], false, Want::Complete, 4);
+//@ harness: taproot_builder_seq_1_1_leaf class=B tier=quick bound="depth sequence [1,1], leaves with 1-byte scripts and any valid leaf version"
+//@ clause: same with script leaves (add_leaf_with_ver): complete, finalize succeeds; never panics
+seq!(taproot_builder_seq_1_1_leaf, [1usize, 1], true, Want::Complete, 5);
+//@ harness: taproot_builder_seq_2_1 class=B tier=quick bound="depth sequence [2,1], hidden nodes"
+//@ clause: a node at depth 1 while level 2 is open is refused with NodeNotInDfsOrder
+seq!(taproot_builder_seq_2_1, [2usize, 1], false, Want::NotDfs, 5);
+//@ harness: taproot_builder_seq_1_0 class=B tier=thorough bound="depth sequence [1,0], hidden nodes"
+//@ clause: a node at depth 0 while level 1 is open is refused with NodeNotInDfsOrder
+seq!(taproot_builder_seq_1_0, [1usize, 0], false, Want::NotDfs, 4);
+//@ harness: taproot_builder_seq_1_2 class=B tier=thorough bound="depth sequence [1,2], hidden nodes"
+//@ clause: going deeper after a left sibling is accepted; the tree is incomplete
+seq!(taproot_builder_seq_1_2, [1usize, 2], false, Want::Incomplete, 5);
+//@ harness: taproot_builder_seq_1_2_2 class=B tier=thorough bound="depth sequence [1,2,2], hidden nodes" timeout=1800
+//@ clause: [1,2,2] is a complete tree: finalize succeeds
+seq!(taproot_builder_seq_1_2_2, [1usize, 2, 2], false, Want::Complete, 5);
+//@ harness: taproot_builder_seq_2_2_1 class=B tier=thorough bound="depth sequence [2,2,1], hidden nodes" timeout=1800
+//@ clause: [2,2,1] is a complete tree (two carries): finalize succeeds
+seq!(taproot_builder_seq_2_2_1, [2usize, 2, 1], false, Want::Complete, 5);
+//@ harness: taproot_builder_seq_1_1_1 class=B tier=thorough bound="depth sequence [1,1,1], hidden nodes" timeout=1800
+//@ clause: a node added after the tree is complete is accepted by the insertion but the result is refused at finalize (IncompleteTree) - "over-complete trees are refused when finalized"
+seq!(taproot_builder_seq_1_1_1, [1usize, 1, 1], false, Want::Incomplete, 5);
+//@ harness: taproot_builder_seq_1_1_0 class=B tier=thorough bound="depth sequence [1,1,0], hidden nodes" timeout=1800
+//@ clause: a root-level node after a complete tree is refused with OverCompleteTree
+seq!(taproot_builder_seq_1_1_0, [1usize, 1, 0], false, Want::Over, 5);
+//@ harness: taproot_builder_seq_2_2_2 class=B tier=thorough bound="depth sequence [2,2,2], hidden nodes" timeout=1800
+//@ clause: [2,2,2] is accepted and incomplete
+seq!(taproot_builder_seq_2_2_2, [2usize, 2, 2], false, Want::Incomplete, 5);
+
+// ---- the 128-level limit -----------------------------------------------------------------------------------
 //@ harness: taproot_builder_deep_129 class=F tier=quick
 //@ clause: a node at depth 129 is refused with InvalidMerkleTreeDepth(129); never panics
-builder_deep!(taproot_builder_deep_129, [129usize], Step::TooDeep, 4);
+seq!(taproot_builder_deep_129, [129usize], false, Want::TooDeep, 4);
 //@ harness: taproot_builder_deep_130 class=F tier=quick
 //@ clause: a node at depth 130 is refused with InvalidMerkleTreeDepth(130)
-builder_deep!(taproot_builder_deep_130, [130usize], Step::TooDeep, 4);
+seq!(taproot_builder_deep_130, [130usize], true, Want::TooDeep, 4);
 //@ harness: taproot_builder_deep_max class=F tier=quick
 //@ clause: a node at depth usize::MAX is refused with InvalidMerkleTreeDepth (no overflow in depth + 1)
-builder_deep!(taproot_builder_deep_max, [usize::MAX], Step::TooDeep, 4);
-//@ harness: taproot_builder_deep_1_129 class=F tier=quick
+seq!(taproot_builder_deep_max, [usize::MAX], false, Want::TooDeep, 4);
+//@ harness: taproot_builder_deep_1_129 class=B tier=quick bound="depth sequence [1,129], hidden nodes"
 //@ clause: after a node at depth 1, a node at depth 129 is refused with InvalidMerkleTreeDepth(129)
-builder_deep!(taproot_builder_deep_1_129, [1usize, 129], Step::TooDeep, 6);
-//@ harness: taproot_builder_deep_128 class=B tier=thorough bound="the single sequence [128]" timeout=1800
-//@ clause: a node at depth 128 (the limit) is accepted; the tree is then incomplete and finalize says IncompleteTree; never panics
-builder_deep!(taproot_builder_deep_128, [128usize], Step::Ok, 132);
-//@ harness: taproot_builder_deep_128_1 class=B tier=thorough bound="the single sequence [128, 1]" timeout=1800
-//@ clause: after a node at depth 128, a node at depth 1 is refused with NodeNotInDfsOrder
-builder_deep!(taproot_builder_deep_128_1, [128usize, 1], Step::NotDfs, 132);
-//@ harness: taproot_builder_deep_128_128 class=B tier=thorough bound="the single sequence [128, 128]" timeout=1800
-//@ clause: two nodes at depth 128 combine into one at depth 127 (accepted, still incomplete)
-builder_deep!(taproot_builder_deep_128_128, [128usize, 128], Step::Ok, 132);
+seq!(taproot_builder_deep_1_129, [1usize, 129], false, Want::TooDeep, 4);
+//@ harness: taproot_builder_deep_128 class=B tier=thorough bound="depth sequence [128], hidden node" timeout=1800
+//@ clause: a node at depth 128 (the limit) is accepted; the tree is then incomplete; never panics
+seq!(taproot_builder_deep_128, [128usize], false, Want::Incomplete, 131);
